@@ -147,6 +147,12 @@ static int cb_common(int kind)
 	return cbfail[kind] == cbcount[kind];
 }
 
+/* every user pointer the value-parsing callback ever produced: each must come back through free_cb */
+#define MAXCREATED 65536
+static struct uptr *created[MAXCREATED];
+static int ncreated = 0;
+static int uptr_lost = 0;	/* produced but never handed to the release callback (counted at behaviour end) */
+
 static int parse_cb(cfg_t *cfg, cfg_opt_t *opt, const char *value, void *result)
 {
 	FILE *mf; char *buf; size_t len;
@@ -185,6 +191,8 @@ static int parse_cb(cfg_t *cfg, cfg_opt_t *opt, const char *value, void *result)
 		u->id = (int)n;	/* = index of the producing callback invocation */
 		u->text = strdup(value ? value : "(null)");
 		*(void **)result = u;
+		if (ncreated < MAXCREATED)
+			created[ncreated++] = u;
 		break;
 	}
 	default:
@@ -296,8 +304,9 @@ static int func_cb(cfg_t *cfg, cfg_opt_t *opt, int argc, const char **argv)
 	logadd(buf);
 	if (fail)
 		cfg_error(cfg, "function '%s' failed", cfg_opt_name(opt));
-	if (!fail && strcmp(cfg_opt_name(opt), "ev") == 0) {
-		cfg_t *aux = aux_ctx();
+	if (!fail && (strcmp(cfg_opt_name(opt), "ev") == 0 || strcmp(cfg_opt_name(opt), "evs") == 0)) {
+		/* "evs": into the very context that is being parsed */
+		cfg_t *aux = strcmp(cfg_opt_name(opt), "evs") == 0 ? cfg : aux_ctx();
 		int k, r;
 		if (argc != 1 || !aux)
 			return 1;
@@ -872,6 +881,15 @@ static void reset_all(void)
 	ntext = 0;
 	nnested = 0;
 	nest_level = 0;
+	uptr_lost = 0;
+	for (i = 0; i < ncreated; i++) {
+		if (!created[i]->freed) {
+			uptr_lost++;
+			free(created[i]->text);
+			free(created[i]);
+		}
+	}
+	ncreated = 0;
 	for (i = 0; i < nallptrs; i++)
 		free(allptrs[i]);
 	nallptrs = 0;
@@ -1037,8 +1055,8 @@ int main(int argc, char **argv)
 		} else if (strcmp(t[0], "end") == 0) {
 			reset_all();
 			alarm(0);
-			fprintf(out, "{\"end\":\"%s\",\"live\":%ld,\"streams\":%ld,\"fds\":%d,\"out\":%ld,\"incsp\":%d}\n",
-				cur_id, vf_live_blocks, vf_open_streams, count_fds(), stray_stdout(), cfg_include_stack_ptr);
+			fprintf(out, "{\"end\":\"%s\",\"live\":%ld,\"streams\":%ld,\"fds\":%d,\"out\":%ld,\"incsp\":%d,\"uptr_lost\":%d}\n",
+				cur_id, vf_live_blocks, vf_open_streams, count_fds(), stray_stdout(), cfg_include_stack_ptr, uptr_lost);
 			fflush(out);
 		} else if (strcmp(t[0], "dump") == 0) {
 			want_ctx_dump = atoi(ARG(1));
